@@ -88,9 +88,9 @@ def runCmds : HW → List String → List String → Option (List String)
   | w, c :: cs, acc =>
     match cmd? w c with
     | none => none
-    | some .tick => runCmds (step HistoryTree.ops w .tick).1 cs acc
+    | some .tick => runCmds (step .current HistoryTree.ops w .tick).1 cs acc
     | some cmd =>
-      let r := step HistoryTree.ops w cmd
+      let r := step .current HistoryTree.ops w cmd
       runCmds r.1 cs (s!"{showOutcome r.2};{showEntries r.1};{showTree r.1.tree}" :: acc)
 
 def histrun : List String → String
